@@ -239,7 +239,7 @@ Lemma float_to_decimal_fits_or_error : forall oc f d p sc bits r, std_dty d -> 0
   float_to_decimal oc f d p sc bits = Ok r -> Z.abs r < 10 ^ p.
 Proof.
   intros oc f d p sc bits r Hd Hp. unfold float_to_decimal.
-  destruct (fmul f (decode f bits) _) as [|n3|n3 m3 e3]; try discriminate.
+  destruct (fmul F64 _ _) as [|n3|n3 m3 e3]; try discriminate.
   destruct (in_range (d_prim d) _) eqn:Er; try discriminate.
   destruct (validate_precision oc d _ p) as [[]| |] eqn:Ev; cbn [obind]; try discriminate.
   intros H; inversion H; subst r. apply (validate_precision_sound oc d _ p Hd Er Hp Ev).
@@ -293,8 +293,106 @@ Proof.
   - exfalso. exact (checked_no_panic _ _ Ec).
 Qed.
 
-(* decimal -> decimal (any direction): a result is the exactly scaled / half-away rounded value AND
-   respects the target precision; equivalently it is the value of the specification *)
+(* the wider primitive of DecimalToDecimal (RescaleTo::Wider) *)
+Definition maxp_w (d1 d2 : dty) : Z := Z.max (d_maxp d1) (d_maxp d2).
+
+Lemma wider_facts : forall d1 d2, std_dty d1 -> std_dty d2 ->
+  std_width (i_bits (wider d1 d2)) /\ imin (wider d1 d2) = - imax (wider d1 d2) - 1
+  /\ 3 * 10 ^ maxp_w d1 d2 <= 2 * imax (wider d1 d2)
+  /\ imax (d_prim d1) <= imax (wider d1 d2) /\ imax (d_prim d2) <= imax (wider d1 d2)
+  /\ d_maxp d1 <= maxp_w d1 d2 /\ d_maxp d2 <= maxp_w d1 d2.
+Proof.
+  intros d1 d2 [-> | ->] [-> | ->]; unfold std_width; vm_compute; repeat split; auto 10; congruence.
+Qed.
+
+(* conversion to the target primitive + validate_precision = "fits the precision" *)
+Lemma range_validate : forall oc d p r, std_dty d -> 0 <= p <= d_maxp d ->
+  (if in_range (d_prim d) r then obind (validate_precision oc d r p) (fun _ => Ok r) else Err)
+  = (if Z.abs r <? 10 ^ p then Ok r else Err).
+Proof.
+  intros oc d p r Hd Hp. destruct (pow10_le_maxp d p Hd Hp) as [Hpos Hle].
+  destruct (in_range (d_prim d) r) eqn:Er.
+  - rewrite validate_precision_spec by auto. destruct (Z.abs r <? 10 ^ p); reflexivity.
+  - pose proof (not_in_range_big d r Hd Er). replace (Z.abs r <? 10 ^ p) with false by lia. reflexivity.
+Qed.
+
+Lemma rha_div_bound : forall v b, 0 < b -> Z.abs (rha_div v b) <= Z.abs v + 1.
+Proof.
+  intros v b Hb. unfold rha_div. rewrite Z.abs_mul.
+  assert (Hq : 0 <= (2 * Z.abs v + b) / (2 * b) <= Z.abs v + 1).
+  { split; [apply Z.div_pos; lia|]. apply Z.div_le_upper_bound; [lia|]. nia. }
+  rewrite (Z.abs_eq ((2 * Z.abs v + b) / (2 * b))) by lia.
+  assert (Z.abs (Z.sgn v) <= 1) by lia. nia.
+Qed.
+
+(* decimal -> decimal (any direction), FULL strength: for every value of the source decimal type and
+   every pair of scales whose difference is at most the precision of the wider type, the cast IS the
+   specification: the exactly scaled / half-away rounded value when it fits DECIMAL(p2,s2), an
+   error otherwise.  (Before PENDING-1 only the soundness half held, see Old.decimal_to_decimal_narrow.) *)
+Lemma rescale_exact_or_error : forall oc d1 d2 s1 p2 s2 v,
+  std_dty d1 -> std_dty d2 -> Z.abs v < 10 ^ d_maxp d1 -> 0 <= p2 <= d_maxp d2 ->
+  Z.abs (s1 - s2) <= maxp_w d1 d2 ->
+  decimal_to_decimal oc d1 d2 s1 p2 s2 v = rescale_spec s1 p2 s2 v.
+Proof.
+  intros oc d1 d2 s1 p2 s2 v Hd1 Hd2 Hv Hp Hk.
+  destruct (wider_facts d1 d2 Hd1 Hd2) as [Hww [Hsym [H3 [Hi1 [Hi2 [HW1 HW2]]]]]].
+  destruct (std_dty_facts d1 Hd1) as [Hw1 [Hm1 [Hsy1 [_ Hmp1]]]].
+  destruct (std_dty_facts d2 Hd2) as [Hw2 [Hm2 [Hsy2 [_ Hmp2]]]].
+  destruct (pow10_le_maxp d2 p2 Hd2 Hp) as [Hp2pos Hp2le].
+  unfold decimal_to_decimal, checked_pow.
+  set (w := wider d1 d2) in *. set (W := maxp_w d1 d2) in *. set (k := s1 - s2) in *.
+  assert (HWpos : 0 < 10 ^ W) by (apply Z.pow_pos_nonneg; lia).
+  assert (Hamt : 0 < 10 ^ Z.abs k <= 10 ^ W)
+    by (split; [apply Z.pow_pos_nonneg; lia | apply Z.pow_le_mono_r; lia]).
+  assert (HvW : Z.abs v < 10 ^ W).
+  { assert (10 ^ d_maxp d1 <= 10 ^ W) by (apply Z.pow_le_mono_r; lia). lia. }
+  unfold checked at 1. rewrite (proj2 (in_range_iff w (10 ^ Z.abs k))) by lia. cbn [obind].
+  rewrite (cast_int_exact_or_error (d_prim d1) w v Hw1 Hww) by (apply in_range_iff; lia).
+  unfold int_spec. rewrite (proj2 (in_range_iff w v)) by lia. cbn [obind].
+  set (amt := 10 ^ Z.abs k) in *.
+  (* the specified value *)
+  set (d := if s1 <=? s2 then v * 10 ^ (s2 - s1) else rha_div v (10 ^ (s1 - s2))).
+  assert (Hbody : (if k <? 0 then checked w (v * amt)
+                   else if 0 <? k then
+                     obind (checked w (v + (if 0 <=? v then (if 0 <? k then Z.quot amt 2 else 0)
+                                            else - (if 0 <? k then Z.quot amt 2 else 0))))
+                           (fun x => checked_div w x amt)
+                   else Ok v) = checked w d).
+  { destruct (k <? 0) eqn:E1.
+    - subst d. replace (s1 <=? s2) with true by lia. subst amt. rewrite Z.abs_neq by lia.
+      replace (- k) with (s2 - s1) by lia. reflexivity.
+    - destruct (0 <? k) eqn:E2.
+      + subst d. replace (s1 <=? s2) with false by lia. fold k.
+        assert (Ha : amt = 10 ^ k) by (subst amt; rewrite Z.abs_eq by lia; reflexivity).
+        assert (Hamt2 : amt = 2 * (5 * 10 ^ (k - 1))).
+        { rewrite Ha. replace k with (Z.succ (k - 1)) at 1 by lia. rewrite Z.pow_succ_r by lia. lia. }
+        set (h := 5 * 10 ^ (k - 1)) in *.
+        assert (Hh : 0 < h) by lia.
+        assert (Hq : Z.quot amt 2 = h) by (rewrite Hamt2, Z.mul_comm, Z.quot_mul by lia; reflexivity).
+        rewrite Hq. unfold checked at 1.
+        rewrite (proj2 (in_range_iff w (v + (if 0 <=? v then h else - h)))) by (destruct (0 <=? v) eqn:?; lia).
+        cbn [obind]. unfold checked_div. replace (amt =? 0) with false by lia.
+        rewrite <- Ha, Hamt2. rewrite (quot_half_away v h Hh). reflexivity.
+      + subst d. replace (s1 <=? s2) with true by lia. replace (s2 - s1) with 0 by lia.
+        change (10 ^ 0) with 1. rewrite Z.mul_1_r. unfold checked.
+        rewrite (proj2 (in_range_iff w v)) by lia. reflexivity. }
+  cbv zeta. rewrite Hbody. unfold rescale_spec. fold d.
+  unfold checked. destruct (in_range w d) eqn:Ewd; cbn [obind].
+  - rewrite (cast_int_exact_or_error w (d_prim d2) d Hww Hw2 Ewd). unfold int_spec.
+    destruct (in_range (d_prim d2) d) eqn:E2d; cbn [obind].
+    + rewrite validate_precision_spec by auto. destruct (Z.abs d <? 10 ^ p2); reflexivity.
+    + pose proof (not_in_range_big d2 d Hd2 E2d). replace (Z.abs d <? 10 ^ p2) with false by lia. reflexivity.
+  - assert (imax w < Z.abs d) by (unfold in_range in Ewd; lia).
+    replace (Z.abs d <? 10 ^ p2) with false by lia. reflexivity.
+Qed.
+
+Example rescale_exact_hyps_sat :
+  std_dty D128 /\ std_dty D64 /\ Z.abs 9999999999999999999 < 10 ^ d_maxp D128 /\ 0 <= 18 <= d_maxp D64
+  /\ Z.abs (5 - 0) <= maxp_w D128 D64 /\ Z.abs (20 - 0) <= maxp_w D128 D64.
+Proof. unfold std_dty. repeat split; auto; vm_compute; congruence. Qed.
+
+(* decimal -> decimal, soundness for ANY scales and any value of the primitive (no bound on the scale
+   difference): a result respects the target precision and is the exactly scaled / half-away value *)
 Lemma rescale_exact_and_respects_precision : forall oc d1 d2 s1 p2 s2 v r,
   std_dty d1 -> std_dty d2 -> in_range (d_prim d1) v = true -> 0 <= p2 ->
   decimal_to_decimal oc d1 d2 s1 p2 s2 v = Ok r ->
@@ -302,16 +400,20 @@ Lemma rescale_exact_and_respects_precision : forall oc d1 d2 s1 p2 s2 v r,
   r = (if s1 <=? s2 then v * 10 ^ (s2 - s1) else rha_div v (10 ^ (s1 - s2))).
 Proof.
   intros oc d1 d2 s1 p2 s2 v r Hd1 Hd2 Hr Hp. unfold decimal_to_decimal, checked_pow.
-  destruct (checked (d_prim d2) (10 ^ Z.abs (s1 - s2))) as [amt| |] eqn:Ep; cbn [obind]; try discriminate.
+  destruct (wider_facts d1 d2 Hd1 Hd2) as [Hww _].
+  set (w := wider d1 d2) in *.
+  destruct (checked w (10 ^ Z.abs (s1 - s2))) as [amt| |] eqn:Ep; cbn [obind]; try discriminate.
   apply checked_ok in Ep. destruct Ep as [Ha _].
   destruct (std_dty_facts d1 Hd1) as [Hw1 _]. destruct (std_dty_facts d2 Hd2) as [Hw2 _].
-  rewrite (cast_int_exact_or_error (d_prim d1) (d_prim d2) v Hw1 Hw2 Hr).
-  unfold int_spec. destruct (in_range (d_prim d2) v) eqn:Ev2; cbn [obind]; try discriminate.
+  rewrite (cast_int_exact_or_error (d_prim d1) w v Hw1 Hww Hr).
+  unfold int_spec. destruct (in_range w v) eqn:Ev2; cbn [obind]; try discriminate.
   match goal with |- obind ?X _ = _ -> _ => destruct X as [r0| |] eqn:Ex end; cbn [obind]; try discriminate.
+  assert (Hr0 : in_range w r0 = true)
+    by exact (rescale_body_range w (s1 - s2) amt (if 0 <? s1 - s2 then Z.quot amt 2 else 0) v r0 Ev2 Ex).
+  rewrite (cast_int_exact_or_error w (d_prim d2) r0 Hww Hw2 Hr0). unfold int_spec.
+  destruct (in_range (d_prim d2) r0) eqn:Hrr; cbn [obind]; try discriminate.
   destruct (validate_precision oc d2 r0 p2) as [[]| |] eqn:Ev; try discriminate.
   intros H; inversion H; subst r0. clear H.
-  assert (Hrr : in_range (d_prim d2) r = true)
-    by exact (rescale_body_range (d_prim d2) (s1 - s2) amt (if 0 <? s1 - s2 then Z.quot amt 2 else 0) v r Ev2 Ex).
   split; [apply (validate_precision_sound oc d2 r p2 Hd2 Hrr Hp Ev)|].
   destruct (s1 - s2 <? 0) eqn:E1.
   - apply checked_ok in Ex. destruct Ex as [-> _]. replace (s1 <=? s2) with true by lia.
@@ -325,7 +427,7 @@ Proof.
       set (h := 5 * 10 ^ (k - 1)) in *.
       assert (Hq : Z.quot amt 2 = h) by (rewrite Hamt, Z.mul_comm, Z.quot_mul by lia; reflexivity).
       rewrite Hq in Ex.
-      destruct (checked (d_prim d2) (v + (if 0 <=? v then h else - h))) as [w| |] eqn:Ec; cbn [obind] in Ex; try discriminate.
+      destruct (checked w (v + (if 0 <=? v then h else - h))) as [x| |] eqn:Ec; cbn [obind] in Ex; try discriminate.
       apply checked_ok in Ec. destruct Ec as [-> _].
       unfold checked_div in Ex. replace (amt =? 0) with false in Ex by lia.
       apply checked_ok in Ex. destruct Ex as [-> _].
@@ -348,31 +450,276 @@ Lemma rescale_never_panics : forall oc d1 d2 s1 p2 s2 v,
   decimal_to_decimal oc d1 d2 s1 p2 s2 v <> Panic.
 Proof.
   intros oc d1 d2 s1 p2 s2 v Hd1 Hd2 Hr. unfold decimal_to_decimal, checked_pow.
-  destruct (checked (d_prim d2) (10 ^ Z.abs (s1 - s2))) as [amt| |] eqn:Ep; cbn [obind]; try discriminate.
-  2:{ unfold checked in Ep. destruct (in_range (d_prim d2) (10 ^ Z.abs (s1 - s2))); discriminate Ep. }
+  destruct (wider_facts d1 d2 Hd1 Hd2) as [Hww _].
+  set (w := wider d1 d2) in *.
+  destruct (checked w (10 ^ Z.abs (s1 - s2))) as [amt| |] eqn:Ep; cbn [obind]; try discriminate.
+  2:{ exfalso. exact (checked_no_panic _ _ Ep). }
   destruct (std_dty_facts d1 Hd1) as [Hw1 _]. destruct (std_dty_facts d2 Hd2) as [Hw2 _].
-  rewrite (cast_int_exact_or_error (d_prim d1) (d_prim d2) v Hw1 Hw2 Hr).
-  unfold int_spec. destruct (in_range (d_prim d2) v) eqn:Ev; cbn [obind]; try discriminate.
+  rewrite (cast_int_exact_or_error (d_prim d1) w v Hw1 Hww Hr).
+  unfold int_spec. destruct (in_range w v) eqn:Ev; cbn [obind]; try discriminate.
   match goal with |- obind ?X _ <> _ => destruct X as [r0| |] eqn:Ex end; cbn [obind]; try discriminate.
-  - pose proof (rescale_body_range (d_prim d2) (s1 - s2) amt (if 0 <? s1 - s2 then Z.quot amt 2 else 0) v r0 Ev Ex) as Hrr.
+  - pose proof (rescale_body_range w (s1 - s2) amt (if 0 <? s1 - s2 then Z.quot amt 2 else 0) v r0 Ev Ex) as Hr0.
+    rewrite (cast_int_exact_or_error w (d_prim d2) r0 Hww Hw2 Hr0). unfold int_spec.
+    destruct (in_range (d_prim d2) r0) eqn:Hrr; cbn [obind]; try discriminate.
     pose proof (validate_precision_total oc d2 r0 p2 Hd2 Hrr) as Hv.
     destruct (validate_precision oc d2 r0 p2); congruence.
-  - exfalso. exact (rescale_body_no_panic (d_prim d2) (s1 - s2) amt (if 0 <? s1 - s2 then Z.quot amt 2 else 0) v Ex).
+  - exfalso. exact (rescale_body_no_panic w (s1 - s2) amt (if 0 <? s1 - s2 then Z.quot amt 2 else 0) v Ex).
 Qed.
 
+(* the two witnesses of the defects repaired by PENDING-1 now succeed ... *)
 Example rescale_sat : decimal_to_decimal true D64 D64 3 5 2 12345 = Ok 1235 /\ decimal_to_decimal true D64 D64 3 5 2 (-12345) = Ok (-1235)
-  /\ decimal_to_decimal true D64 D64 2 3 1 12345 = Err /\ decimal_to_decimal true D128 D64 20 18 0 150000000000000000000 = Err.
+  /\ decimal_to_decimal true D64 D64 2 3 1 12345 = Err
+  /\ decimal_to_decimal true D128 D64 5 18 0 9999999999999999999 = Ok 100000000000000
+  /\ decimal_to_decimal true D128 D64 20 18 0 150000000000000000000 = Ok 2.
 Proof. vm_compute. repeat split; reflexivity. Qed.
 
-(* still open in the current code: Decimal128 -> Decimal64 converts the unscaled value first *)
-Lemma rescale_narrows_before_downscale :
-  decimal_to_decimal true D128 D64 5 18 0 9999999999999999999 = Err /\ rescale_spec 5 18 0 9999999999999999999 = Ok 100000000000000.
+(* ... and were refused by the code before it: Decimal128 -> Decimal64 converted the unscaled value
+   to i64 first, and computed 10^|scale difference| in i64 *)
+Lemma old_rescale_narrows_before_downscale :
+  Old.decimal_to_decimal_narrow true D128 D64 5 18 0 9999999999999999999 = Err
+  /\ rescale_spec 5 18 0 9999999999999999999 = Ok 100000000000000
+  /\ decimal_to_decimal true D128 D64 5 18 0 9999999999999999999 = Ok 100000000000000.
+Proof. vm_compute. repeat split; reflexivity. Qed.
+
+Lemma old_rescale_factor_exceeds_target_primitive :
+  Old.decimal_to_decimal_narrow true D128 D64 20 18 0 150000000000000000000 = Err
+  /\ rescale_spec 20 18 0 150000000000000000000 = Ok 2
+  /\ decimal_to_decimal true D128 D64 20 18 0 150000000000000000000 = Ok 2.
+Proof. vm_compute. repeat split; reflexivity. Qed.
+
+(* ---------- float -> decimal ---------- *)
+Lemma log2_lt_pow : forall a, 0 < a -> a < 2 ^ (Z.log2 a + 1).
+Proof. intros a Ha. pose proof (Z.log2_spec a Ha) as [_ H]. rewrite Z.add_1_r. exact H. Qed.
+
+(* IEEE rounding of a * 2^t * 2^E is exact when a fits the mantissa and the result is neither
+   below the subnormal ulp nor above the largest exponent *)
+Lemma round_float_exact : forall f neg a t E,
+  0 <= f_mbits f -> 0 < a -> a < 2 ^ (f_mbits f + 1) -> 0 <= t -> emin f <= E + t ->
+  Z.max (E + t + (Z.log2 a + 1) - (f_mbits f + 1)) (emin f) <= emax f ->
+  round_float f neg (a * 2 ^ t) E =
+  FFin neg (a * 2 ^ (E + t - Z.max (E + t + (Z.log2 a + 1) - (f_mbits f + 1)) (emin f)))
+           (Z.max (E + t + (Z.log2 a + 1) - (f_mbits f + 1)) (emin f)).
+Proof.
+  intros f neg a t E Hmb Ha Hap Ht Hemin Hemax.
+  set (e' := Z.max (E + t + (Z.log2 a + 1) - (f_mbits f + 1)) (emin f)) in *.
+  assert (HP : 0 < 2 ^ t) by (apply Z.pow_pos_nonneg; lia).
+  assert (HM : 0 < a * 2 ^ t) by (apply Z.mul_pos_pos; lia).
+  assert (Hlog : Z.log2 (a * 2 ^ t) = t + Z.log2 a) by (apply Z.log2_mul_pow2; lia).
+  assert (Hl : 0 <= Z.log2 a) by apply Z.log2_nonneg.
+  assert (Hlp : Z.log2 a < f_mbits f + 1) by (apply Z.log2_lt_pow2; lia).
+  assert (He'E : e' <= E + t) by (subst e'; lia).
+  unfold round_float. replace (a * 2 ^ t =? 0) with false by lia. cbv zeta. rewrite Hlog.
+  match goal with |- context [Z.max ?x (emin f)] => replace (Z.max x (emin f)) with e' by (subst e'; lia) end.
+  assert (Hm : (if e' <=? E then a * 2 ^ t * 2 ^ (E - e') else rne_shift (a * 2 ^ t) (e' - E)) = a * 2 ^ (E + t - e')).
+  { destruct (e' <=? E) eqn:Ee.
+    - rewrite <- Z.mul_assoc, <- Z.pow_add_r by lia. f_equal. f_equal. lia.
+    - unfold rne_shift. set (k := e' - E). assert (Hk : 0 < k <= t) by lia.
+      replace (a * 2 ^ t) with (a * 2 ^ (t - k) * 2 ^ k)
+        by (rewrite <- Z.mul_assoc, <- Z.pow_add_r by lia; do 2 f_equal; lia).
+      assert (Hk2 : 2 ^ k <> 0) by (apply Z.pow_nonzero; lia).
+      rewrite Z.div_mul, Z.mod_mul by exact Hk2.
+      assert (0 < 2 ^ (k - 1)) by (apply Z.pow_pos_nonneg; lia).
+      replace (0 <? 2 ^ (k - 1)) with true by lia. f_equal. f_equal. lia. }
+  rewrite Hm.
+  assert (Hlt : a * 2 ^ (E + t - e') < 2 ^ (f_mbits f + 1)).
+  { pose proof (log2_lt_pow a Ha) as Hb.
+    assert (Hle : 2 ^ (Z.log2 a + 1) * 2 ^ (E + t - e') <= 2 ^ (f_mbits f + 1)).
+    { rewrite <- Z.pow_add_r by lia. apply Z.pow_le_mono_r; subst e'; lia. }
+    assert (0 < 2 ^ (E + t - e')) by (apply Z.pow_pos_nonneg; lia). nia. }
+  replace (a * 2 ^ (E + t - e') =? 2 ^ (f_mbits f + 1)) with false by lia.
+  replace (emax f <? e') with false by lia. reflexivity.
+Qed.
+
+(* .round() does not depend on the representation of the value *)
+Lemma rha_me_scale : forall a e j, 0 <= j -> round_half_away_me (a * 2 ^ j) (e - j) = round_half_away_me a e.
+Proof.
+  intros a e j Hj. unfold round_half_away_me.
+  destruct (0 <=? e - j) eqn:E1.
+  - replace (0 <=? e) with true by lia. rewrite <- Z.mul_assoc, <- Z.pow_add_r by lia. do 2 f_equal. lia.
+  - destruct (0 <=? e) eqn:E2.
+    + set (k := - (e - j)). assert (Hk : 0 < k) by lia.
+      assert (Hk2 : 0 < 2 ^ k) by (apply Z.pow_pos_nonneg; lia).
+      replace (a * 2 ^ j) with (a * 2 ^ e * 2 ^ k)
+        by (rewrite <- Z.mul_assoc, <- Z.pow_add_r by lia; do 2 f_equal; lia).
+      rewrite Z.div_add_l by lia. rewrite Z.div_small; [lia|].
+      split; [apply Z.pow_nonneg; lia|]. apply Z.pow_lt_mono_r; lia.
+    + set (k0 := - e). assert (Hk0 : 0 < k0) by lia.
+      replace (- (e - j)) with (j + k0) by lia.
+      replace (j + k0 - 1) with (j + (k0 - 1)) by lia.
+      rewrite !Z.pow_add_r by lia.
+      replace (a * 2 ^ j + 2 ^ j * 2 ^ (k0 - 1)) with (2 ^ j * (a + 2 ^ (k0 - 1))) by lia.
+      assert (0 < 2 ^ j) by (apply Z.pow_pos_nonneg; lia).
+      assert (0 < 2 ^ k0) by (apply Z.pow_pos_nonneg; lia).
+      rewrite Z.div_mul_cancel_l by lia. reflexivity.
+Qed.
+
+(* the integer the specification asks for, from the factored form 10^s = 5^s * 2^s *)
+Lemma rha_me_scaled : forall m e s, 0 <= m -> 0 <= s ->
+  round_half_away_me (m * 5 ^ s) (e + s) = scaled_rha m e s.
+Proof.
+  intros m e s Hm Hs. unfold round_half_away_me, scaled_rha.
+  assert (H10 : 10 ^ s = 5 ^ s * 2 ^ s) by (change 10 with (5 * 2); apply Z.pow_mul_l).
+  assert (H5 : 0 < 5 ^ s) by (apply Z.pow_pos_nonneg; lia).
+  assert (H2 : 0 < 2 ^ s) by (apply Z.pow_pos_nonneg; lia).
+  destruct (0 <=? e) eqn:E1.
+  - replace (0 <=? e + s) with true by lia. rewrite H10, Z.pow_add_r by lia. lia.
+  - set (k := - e). assert (Hk : 0 < k) by lia.
+    assert (Hk2 : 0 < 2 ^ k) by (apply Z.pow_pos_nonneg; lia).
+    assert (Ha : 0 <= m * 10 ^ s) by nia.
+    unfold rha_div. rewrite (Z.abs_eq (m * 10 ^ s)) by exact Ha.
+    destruct (0 <=? e + s) eqn:E2.
+    + (* k <= s: the product is an integer *)
+      assert (Hx : m * 10 ^ s = m * 5 ^ s * 2 ^ (e + s) * 2 ^ k).
+      { rewrite H10. replace s with ((e + s) + k) at 2 by lia. rewrite Z.pow_add_r by lia. lia. }
+      set (X := m * 5 ^ s * 2 ^ (e + s)) in *.
+      assert (HX : 0 <= X) by (subst X; assert (0 <= 2 ^ (e + s)) by (apply Z.pow_nonneg; lia); nia).
+      rewrite Hx.
+      replace (2 * (X * 2 ^ k) + 2 ^ k) with (X * (2 * 2 ^ k) + 2 ^ k) by lia.
+      rewrite Z.div_add_l by lia. rewrite (Z.div_small (2 ^ k)) by lia.
+      destruct (Z.eq_dec X 0) as [H0|H0].
+      * rewrite H0. reflexivity.
+      * rewrite Z.sgn_pos by nia. lia.
+    + set (k' := - (e + s)). assert (Hk' : 0 < k') by lia.
+      assert (Hkk : 2 ^ k = 2 ^ s * 2 ^ k') by (rewrite <- Z.pow_add_r by lia; f_equal; lia).
+      assert (Hk'2 : 0 < 2 ^ k') by (apply Z.pow_pos_nonneg; lia).
+      rewrite H10, Hkk.
+      replace (2 * (m * (5 ^ s * 2 ^ s)) + 2 ^ s * 2 ^ k') with (2 ^ s * (2 * (m * 5 ^ s) + 2 ^ k')) by lia.
+      replace (2 * (2 ^ s * 2 ^ k')) with (2 ^ s * (2 * 2 ^ k')) by lia.
+      rewrite Z.div_mul_cancel_l by lia.
+      assert (Hhalf : 2 ^ k' = 2 * 2 ^ (k' - 1)).
+      { replace k' with (Z.succ (k' - 1)) at 1 by lia. rewrite Z.pow_succ_r by lia. reflexivity. }
+      set (A := m * 5 ^ s) in *. assert (HA : 0 <= A) by (subst A; nia).
+      assert (Hq : (A + 2 ^ (k' - 1)) / 2 ^ k' = (2 * A + 2 ^ k') / (2 * 2 ^ k')).
+      { rewrite Hhalf at 2. replace (2 * A + 2 * 2 ^ (k' - 1)) with (2 * (A + 2 ^ (k' - 1))) by lia.
+        rewrite Z.div_mul_cancel_l by lia. reflexivity. }
+      rewrite Hq.
+      destruct (Z.eq_dec m 0) as [H0|H0].
+      * assert (HA0 : A = 0) by (unfold A; rewrite H0; apply Z.mul_0_l).
+        rewrite HA0, H0. replace (Z.sgn (0 * (5 ^ s * 2 ^ s))) with 0 by reflexivity.
+        rewrite Z.mul_0_l. apply Z.div_small. lia.
+      * rewrite Z.sgn_pos by nia. lia.
+Qed.
+
+(* 10f64.powi(s) is exactly 10^s for 0 <= s <= 22, with a normalised 53-bit mantissa *)
+Lemma powi10_exact : forall s, 0 <= s <= 22 ->
+  exists j, 0 <= j /\ powi10 s = FFin false (5 ^ s * 2 ^ j) (s - j).
+Proof.
+  intros s Hs.
+  assert (H : s = 0 \/ s = 1 \/ s = 2 \/ s = 3 \/ s = 4 \/ s = 5 \/ s = 6 \/ s = 7 \/ s = 8 \/ s = 9 \/ s = 10 \/ s = 11
+              \/ s = 12 \/ s = 13 \/ s = 14 \/ s = 15 \/ s = 16 \/ s = 17 \/ s = 18 \/ s = 19 \/ s = 20 \/ s = 21 \/ s = 22) by lia.
+  repeat (destruct H as [-> | H]); try subst s;
+    match goal with |- exists j, _ /\ powi10 ?c = _ =>
+      first [ exists 0; split; [lia | vm_compute; reflexivity]       (* s = 0: the literal 1.0 *)
+            | exists (52 - Z.log2 (5 ^ c)); split; [vm_compute; congruence | vm_compute; reflexivity] ]
+    end.
+Qed.
+
+(* float -> DECIMAL(p,s), exact whenever the scaled mantissa m * 5^s fits the 53 bits of an f64 (the
+   product v * 10^s is then computed without a rounding error): the cast IS the specification
+   round_half_away(v * 10^s) of the exact binary value, an error when that does not fit DECIMAL(p,s) *)
+Lemma float_to_decimal_exact_when_representable : forall oc f d p s bits neg m e,
+  std_dty d -> 0 <= p <= d_maxp d -> 0 <= s <= 22 ->
+  decode f bits = FFin neg m e -> 0 <= m -> m * 5 ^ s < 2 ^ 53 -> -1074 <= e -> e + s <= 971 ->
+  float_to_decimal oc f d p s bits = float_decimal_spec f p s bits.
+Proof.
+  intros oc f d p s bits neg m e Hd Hp Hs Hdec Hm Hfit Hlo Hhi.
+  unfold float_to_decimal, float_decimal_spec, to_f64. rewrite Hdec. rewrite Z.abs_eq by lia.
+  destruct (powi10_exact s Hs) as [j2 [Hj2 Hpow]]. rewrite Hpow.
+  assert (H5 : 0 < 5 ^ s) by (apply Z.pow_pos_nonneg; lia).
+  destruct (Z.eq_dec m 0) as [-> | Hm0].
+  - (* zero *)
+    assert (Hz : round_float F64 neg 0 e = FFin neg 0 (-1074)) by reflexivity.
+    rewrite Hz. cbn [fmul]. rewrite Z.mul_0_l.
+    assert (Hz2 : forall n E, round_float F64 n 0 E = FFin n 0 (-1074)) by reflexivity.
+    rewrite Hz2.
+    assert (Hr : round_half_away_me 0 (-1074) = 0) by (vm_compute; reflexivity).
+    rewrite Hr.
+    assert (Hs0 : scaled_rha 0 e s = 0).
+    { unfold scaled_rha. destruct (0 <=? e); [lia|]. unfold rha_div. rewrite Z.mul_0_l. reflexivity. }
+    rewrite Hs0.
+    assert (Hsg : forall b, signed b 0 = 0) by (intros []; reflexivity).
+    rewrite !Hsg. cbv zeta. apply range_validate; auto.
+  - assert (Hmpos : 0 < m) by lia.
+    assert (Hm53 : m < 2 ^ 53) by nia.
+    (* widening to f64 is exact *)
+    pose proof (round_float_exact F64 neg m 0 e) as Hw.
+    change (f_mbits F64 + 1) with 53 in Hw. change (emin F64) with (-1074) in Hw. change (emax F64) with 971 in Hw.
+    change (2 ^ 0) with 1 in Hw. rewrite Z.mul_1_r in Hw.
+    assert (Hl1 : 0 <= Z.log2 m < 53) by (split; [apply Z.log2_nonneg | apply Z.log2_lt_pow2; lia]).
+    specialize (Hw ltac:(cbn; lia) Hmpos Hm53 ltac:(lia) ltac:(lia) ltac:(lia)).
+    set (e1 := Z.max (e + 0 + (Z.log2 m + 1) - 53) (-1074)) in *.
+    rewrite Hw. cbn [fmul]. rewrite Bool.xorb_false_r.
+    (* the product is exact *)
+    set (j1 := e + 0 - e1) in *. assert (Hj1 : 0 <= j1) by (subst j1 e1; lia).
+    replace (m * 2 ^ j1 * (5 ^ s * 2 ^ j2)) with (m * 5 ^ s * 2 ^ (j1 + j2))
+      by (rewrite Z.pow_add_r by lia; lia).
+    set (a := m * 5 ^ s) in *. assert (Ha : 0 < a) by (subst a; nia).
+    pose proof (round_float_exact F64 neg a (j1 + j2) (e1 + (s - j2))) as Hx.
+    change (f_mbits F64 + 1) with 53 in Hx. change (emin F64) with (-1074) in Hx. change (emax F64) with 971 in Hx.
+    assert (Hl2 : 0 <= Z.log2 a < 53) by (split; [apply Z.log2_nonneg | apply Z.log2_lt_pow2; lia]).
+    assert (HEt : e1 + (s - j2) + (j1 + j2) = e + s) by (subst j1; lia).
+    rewrite HEt in Hx.
+    specialize (Hx ltac:(cbn; lia) Ha Hfit ltac:(lia) ltac:(lia) ltac:(lia)).
+    set (e2 := Z.max (e + s + (Z.log2 a + 1) - 53) (-1074)) in *.
+    rewrite Hx.
+    assert (Hr : round_half_away_me (a * 2 ^ (e + s - e2)) e2 = scaled_rha m e s).
+    { replace e2 with ((e + s) - (e + s - e2)) at 2 by lia.
+      rewrite rha_me_scale by (subst e2; lia). subst a. apply rha_me_scaled; lia. }
+    cbv zeta. rewrite Hr. apply range_validate; auto.
+Qed.
+
+Lemma decode_f32_bounds : forall bits neg m e, decode F32 bits = FFin neg m e -> 0 <= m < 2 ^ 24 /\ -149 <= e <= 104.
+Proof.
+  intros bits neg m e H. unfold decode, f_bias in H. cbn [F32 f_mbits f_ebits] in H.
+  change (8 - 1) with 7 in H. change (23 + 8) with 31 in H. eval_pows.
+  pose proof (Z.mod_pos_bound bits 8388608 eq_refl) as H1.
+  pose proof (Z.mod_pos_bound (bits / 8388608) 256 eq_refl) as H2.
+  destruct (_ =? 256 - 1) eqn:E1 in H; [destruct (_ =? 0) in H; discriminate|].
+  destruct ((bits / 8388608) mod 256 =? 0) eqn:E2; inversion H; subst; lia.
+Qed.
+
+(* every f32 (zero, subnormals, both signs), every scale 0..12: v * 10^s is exact in f64 *)
+Lemma float32_to_decimal_exact_or_error : forall oc d p s bits,
+  std_dty d -> 0 <= p <= d_maxp d -> 0 <= s <= 12 ->
+  float_to_decimal oc F32 d p s bits = float_decimal_spec F32 p s bits.
+Proof.
+  intros oc d p s bits Hd Hp Hs.
+  destruct (decode F32 bits) as [|ng|ng m e] eqn:Hdec.
+  - unfold float_to_decimal, float_decimal_spec, to_f64. rewrite Hdec.
+    destruct (powi10 (Z.abs s)); reflexivity.
+  - unfold float_to_decimal, float_decimal_spec, to_f64. rewrite Hdec.
+    destruct (powi10_exact s ltac:(lia)) as [j [Hj Hpw]]. rewrite Z.abs_eq by lia. rewrite Hpw. cbn [fmul].
+    assert (H5 : 0 < 5 ^ s) by (apply Z.pow_pos_nonneg; lia).
+    assert (0 < 2 ^ j) by (apply Z.pow_pos_nonneg; lia).
+    replace (5 ^ s * 2 ^ j =? 0) with false by nia. reflexivity.
+  - destruct (decode_f32_bounds bits ng m e Hdec) as [Hm He].
+    assert (H5 : 0 < 5 ^ s <= 5 ^ 12) by (split; [apply Z.pow_pos_nonneg; lia | apply Z.pow_le_mono_r; lia]).
+    change (5 ^ 12) with 244140625 in H5. change (2 ^ 24) with 16777216 in Hm.
+    apply (float_to_decimal_exact_when_representable oc F32 d p s bits ng m e); auto; try lia.
+    change (2 ^ 53) with 9007199254740992. nia.
+Qed.
+
+Example float_to_decimal_sat :
+  float_to_decimal true F32 D64 18 9 1092091904 = Ok 9500000000               (* 9.5f32 *)
+  /\ float_decimal_spec F32 18 9 1092091904 = Ok 9500000000
+  /\ float_to_decimal true F64 D64 5 2 4612811918334230528 = Ok 250            (* 2.5f64 *)
+  /\ float_to_decimal true F32 D64 3 1 1120403456 = Err.                      (* 100f32 as DECIMAL(3,1) *)
+Proof. vm_compute. repeat split; reflexivity. Qed.
+
+(* the defect repaired by PENDING-1: scale factor and product in the SOURCE float type *)
+Lemma old_float_to_decimal_source_format :
+  Old.float_to_decimal_srcfmt true F32 D64 18 9 1092091904 = Ok 9500000256
+  /\ float_decimal_spec F32 18 9 1092091904 = Ok 9500000000
+  /\ float_to_decimal true F32 D64 18 9 1092091904 = Ok 9500000000.
+Proof. vm_compute. repeat split; reflexivity. Qed.
+
+(* STILL OPEN for f64 (and for f32 with a scale above 12): the product v * 10^s is rounded to f64
+   before .round().  f64 1.115 is exactly 1.1149999999999999911..., the product rounds to 111.5 *)
+Lemma float_to_decimal_double_rounding :
+  float_to_decimal true F64 D64 5 2 4607700332757165015 = Ok 112
+  /\ float_decimal_spec F64 5 2 4607700332757165015 = Ok 111.
 Proof. vm_compute. split; reflexivity. Qed.
 
-(* float -> decimal: the product is rounded to the float format first (1.115 -> 1.12, exact rule 1.11) *)
-Lemma float_to_decimal_double_rounding :
-  float_to_decimal true F64 D64 5 2 4607700332757165015 = Ok 112.
-Proof. vm_compute. reflexivity. Qed.
 
 (* ---------- nested casts ---------- *)
 Definition ity_of (x : bool * Z) : ity := mk_ity (fst x) (snd x).
